@@ -300,4 +300,325 @@ theorem input_overrun_refines (cc : CC) (hi : Inv cc) (data : Bytes) (hd : data 
     simp only [decide_eq_true_eq] at hno
     omega
 
+/-! ### the flush path and the path of a chunk that fits; the general refinement -/
+
+/-- `context->buffer.data[context->buffer.position] = 0;` with its CHECK, as the translator emits it -/
+def storeNul (cc : CC) : CC :=
+  let c := cc.chk (decide (0 ≤ cc.buffer_position ∧ cc.buffer_position < cc.buffer_data.length))
+  { c with buffer_data := c.buffer_data.set c.buffer_position.toNat 0 }
+
+theorem storeNul_toM (cc : CC) : toM (storeNul cc) = { toM cc with buf := (toM cc).buf.set (toM cc).position 0 } := by
+  unfold storeNul; rw [toM_upd_data, chk_toM, chk_data, chk_pos]; rfl
+@[simp] theorem storeNul_pos (cc : CC) : (storeNul cc).buffer_position = cc.buffer_position := chk_pos _ _
+@[simp] theorem storeNul_len (cc : CC) : (storeNul cc).buffer_length = cc.buffer_length := chk_len _ _
+@[simp] theorem storeNul_oof (cc : CC) : (storeNul cc).outOfFuel = cc.outOfFuel := chk_oof _ _
+@[simp] theorem storeNul_data (cc : CC) : (storeNul cc).buffer_data = cc.buffer_data.set cc.buffer_position.toNat 0 := by
+  unfold storeNul; simp only [chk_data, chk_pos]
+@[simp] theorem storeNul_ub (cc : CC) : (storeNul cc).ub =
+    (cc.ub || !decide (0 ≤ cc.buffer_position ∧ cc.buffer_position < cc.buffer_data.length)) := chk_ub _ _
+
+theorem storeNul_ub_inv {cc : CC} (hi : Inv cc) : (storeNul cc).ub = false := by
+  obtain ⟨w1, w2, w3⟩ := hi.wf
+  simp only [toM_buf, toM_position, toM_bufLen] at w1 w2
+  have := hi.pos0
+  simp only [storeNul_ub, hi.ub, Bool.false_or, Bool.not_eq_false', decide_eq_true_eq]; omega
+
+attribute [local irreducible] Ctx.parse Parser.detectUnit in
+theorem input_flush_eq (cc : CC) : SCPI_Input detectM parseM pushM cc (some []) 0 =
+    ({ (parseM (storeNul cc) 0 (wrapS32 (storeNul cc).buffer_position)).1 with buffer_position := 0 },
+      (parseM (storeNul cc) 0 (wrapS32 (storeNul cc).buffer_position)).2) := by
+  simp only [SCPI_Input, beq_self_eq_true, if_true]
+  rfl
+
+attribute [local irreducible] Ctx.parse in
+theorem input_nil (m : Ctx) : Ctx.input m [] =
+    emit { (Ctx.parse { m with buf := m.buf.set m.position 0 } 0 m.position).1 with position := 0 }
+      (.input (Ctx.parse { m with buf := m.buf.set m.position 0 } 0 m.position).2) := rfl
+
+attribute [local irreducible] Ctx.parse in
+/-- flush: a zero-length call terminates the pending bytes, parses them as one message and empties the buffer -/
+theorem input_flush_refines (cc : CC) (hi : Inv cc) :
+    Ctx.input (toM cc) [] = emit (toM (SCPI_Input detectM parseM pushM cc (some []) 0).1)
+        (.input (SCPI_Input detectM parseM pushM cc (some []) 0).2) ∧
+    (SCPI_Input detectM parseM pushM cc (some []) 0).1.ub = false ∧
+    (SCPI_Input detectM parseM pushM cc (some []) 0).1.outOfFuel = false := by
+  obtain ⟨w1, w2, w3⟩ := hi.wf
+  simp only [toM_buf, toM_position, toM_bufLen] at w1 w2
+  have hpos := hi.pos0
+  have hlm := hi.lenmax
+  have e1 : wrapS32 cc.buffer_position = cc.buffer_position := wrapS32_of_range _ (by omega) (by omega)
+  rw [input_flush_eq, storeNul_pos, e1, input_nil]
+  refine ⟨?_, ?_, ?_⟩
+  · show _ = emit (toM { (parseM (storeNul cc) 0 cc.buffer_position).1 with buffer_position := 0 }) (.input (parseM (storeNul cc) 0 cc.buffer_position).2)
+    rw [toM_upd_pos (parseM (storeNul cc) 0 cc.buffer_position).1 0, parseM_toM (storeNul cc), parseM_snd (storeNul cc), storeNul_toM cc]
+    rfl
+  · show (parseM (storeNul cc) 0 cc.buffer_position).1.ub = false
+    rw [parseM_ub]; exact storeNul_ub_inv hi
+  · show (parseM (storeNul cc) 0 cc.buffer_position).1.outOfFuel = false
+    rw [parseM_oof, storeNul_oof]; exact hi.oof
+
+theorem inv_storeNul {cc : CC} (hi : Inv cc) : Inv (storeNul cc) := by
+  refine ⟨storeNul_ub_inv hi, ?_, ?_, ?_, ?_, ?_, ?_, ?_⟩
+  · rw [storeNul_oof]; exact hi.oof
+  · rw [storeNul_pos]; exact hi.pos0
+  · rw [storeNul_len]; exact hi.len0
+  · rw [storeNul_len]; exact hi.lenmax
+  · rw [storeNul_toM]; show (List.set _ _ _).length = _
+    rw [List.length_set]; exact hi.wf.1
+  · rw [storeNul_toM]; exact hi.wf.2.1
+  · rw [storeNul_toM]; exact hi.wf.2.2
+
+/-- `memcpy(&context->buffer.data[context->buffer.position], data, len); context->buffer.position += len;` with the CHECK -/
+def copyIn (cc : CC) (data : Option Bytes) (len : Int) : CC :=
+  let c := cc.chk (data.isSome && decide (0 ≤ cc.buffer_position ∧ cc.buffer_position + (wrapU64 len) ≤ cc.buffer_data.length ∧ 0 ≤ 0 ∧ 0 + (wrapU64 len) ≤ (data.getD []).length))
+  let c := { c with buffer_data := bwrite c.buffer_data c.buffer_position (bslice (data.getD []) 0 (wrapU64 len)) }
+  { c with buffer_position := wrapU64 (c.buffer_position + (wrapU64 len)) }
+
+theorem copyIn_toM (cc : CC) (data : Option Bytes) (len : Int) : toM (copyIn cc data len) =
+    { toM cc with buf := bwrite cc.buffer_data cc.buffer_position (bslice (data.getD []) 0 (wrapU64 len)),
+                  position := (wrapU64 (cc.buffer_position + wrapU64 len)).toNat } := by
+  unfold copyIn
+  simp only [chk_data, chk_pos]
+  rw [toM_upd, chk_toM]
+@[simp] theorem copyIn_pos (cc : CC) (data : Option Bytes) (len : Int) :
+    (copyIn cc data len).buffer_position = wrapU64 (cc.buffer_position + wrapU64 len) := by
+  unfold copyIn; simp only [chk_pos]
+@[simp] theorem copyIn_len (cc : CC) (data : Option Bytes) (len : Int) : (copyIn cc data len).buffer_length = cc.buffer_length := chk_len _ _
+@[simp] theorem copyIn_oof (cc : CC) (data : Option Bytes) (len : Int) : (copyIn cc data len).outOfFuel = cc.outOfFuel := chk_oof _ _
+@[simp] theorem copyIn_data (cc : CC) (data : Option Bytes) (len : Int) : (copyIn cc data len).buffer_data =
+    bwrite cc.buffer_data cc.buffer_position (bslice (data.getD []) 0 (wrapU64 len)) := by
+  unfold copyIn; simp only [chk_data, chk_pos]
+@[simp] theorem copyIn_ub (cc : CC) (data : Option Bytes) (len : Int) : (copyIn cc data len).ub =
+    (cc.ub || !(data.isSome && decide (0 ≤ cc.buffer_position ∧ cc.buffer_position + (wrapU64 len) ≤ cc.buffer_data.length ∧ 0 ≤ 0 ∧ 0 + (wrapU64 len) ≤ (data.getD []).length))) := chk_ub _ _
+
+/-- the path of a chunk that fits, from the state after the overrun test: copy, terminate, scan -/
+def fitsPath (c0 : CC) (data : Option Bytes) (len : Int) : CC × Bool :=
+  let c2 := storeNul (copyIn c0 data len)
+  let L := SCPI_Input_loop1 detectM parseM pushM ((c2.buffer_position + 2).toNat) c2 true 0 0
+  (L.1, L.2.1)
+
+attribute [local irreducible] Ctx.parse Parser.detectUnit inputLoop in
+theorem input_nonempty_fits (m : Ctx) (data : Bytes) (hd : (data.length == 0) = false)
+    (hov : ¬ data.length + 1 > m.bufLen - m.position) : Ctx.input m data =
+    emit (inputLoop (m.position + data.length + 2)
+        { m with buf := (poke m.buf m.position data).set (m.position + data.length) 0, position := m.position + data.length } 0 true).1
+      (.input (inputLoop (m.position + data.length + 2)
+        { m with buf := (poke m.buf m.position data).set (m.position + data.length) 0, position := m.position + data.length } 0 true).2) := by
+  simp only [Ctx.input, hd, Bool.false_eq_true, if_false, hov]
+
+attribute [local irreducible] Ctx.parse Parser.detectUnit inputLoop SCPI_Input_loop1 in
+theorem fitsPath_refines (c0 : CC) (hi : Inv c0) (data : Bytes) (hd : data ≠ [])
+    (hov : ¬ data.length + 1 > (toM c0).bufLen - (toM c0).position) :
+    Ctx.input (toM c0) data = emit (toM (fitsPath c0 (some data) data.length).1) (.input (fitsPath c0 (some data) data.length).2) ∧
+    (fitsPath c0 (some data) data.length).1.ub = false ∧ (fitsPath c0 (some data) data.length).1.outOfFuel = false ∧
+    Inv (fitsPath c0 (some data) data.length).1 := by
+  obtain ⟨w1, w2, w3⟩ := hi.wf
+  simp only [toM_buf, toM_position, toM_bufLen] at w1 w2
+  have hpos := hi.pos0
+  have hlm := hi.lenmax
+  have hl0 := hi.len0
+  have hd1 : data.length ≠ 0 := by intro h; exact hd (List.length_eq_zero_iff.mp h)
+  have hd'' : (data.length == 0) = false := by simp [hd1]
+  have hov' : ¬ data.length + 1 > c0.buffer_length.toNat - c0.buffer_position.toNat := hov
+  have e2 : wrapU64 (data.length : Int) = data.length := wrapU64_of_range _ (by omega) (by omega)
+  have e3 : wrapU64 (c0.buffer_position + data.length) = c0.buffer_position + data.length := wrapU64_of_range _ (by omega) (by omega)
+  have hsl : bslice data 0 (data.length : Int) = data := by
+    simp only [bslice_eq, Int.toNat_zero, List.drop_zero, Int.toNat_natCast, List.take_length]
+  have hbw : bwrite c0.buffer_data c0.buffer_position data = poke c0.buffer_data c0.buffer_position.toNat data :=
+    bwrite_eq_poke _ _ _ hpos (by omega)
+  have hn : (c0.buffer_position + (data.length : Int)).toNat = c0.buffer_position.toNat + data.length := by omega
+  -- the state the loop starts from
+  have hc1 : toM (copyIn c0 (some data) data.length) =
+      { toM c0 with buf := poke (toM c0).buf (toM c0).position data, position := (toM c0).position + data.length } := by
+    rw [copyIn_toM, e2, e3, Option.getD_some, hsl, hbw, hn]; rfl
+  have hi1 : Inv (copyIn c0 (some data) data.length) := by
+    refine ⟨?_, ?_, ?_, ?_, ?_, ?_, ?_, ?_⟩
+    · simp only [copyIn_ub, hi.ub, Bool.false_or, e2, Option.isSome_some, Bool.true_and, Option.getD_some, Bool.not_eq_false',
+        decide_eq_true_eq]
+      omega
+    · rw [copyIn_oof]; exact hi.oof
+    · rw [copyIn_pos, e2, e3]; omega
+    · rw [copyIn_len]; exact hl0
+    · rw [copyIn_len]; exact hlm
+    · rw [hc1]; show (poke _ _ _).length = _
+      rw [Bounds.poke_length]; exact hi.wf.1
+    · rw [hc1]; show c0.buffer_position.toNat + data.length < c0.buffer_length.toNat; omega
+    · rw [hc1]; exact w3
+  have hi2 := inv_storeNul hi1
+  have hc2 : toM (storeNul (copyIn c0 (some data) data.length)) =
+      { toM c0 with buf := (poke (toM c0).buf (toM c0).position data).set ((toM c0).position + data.length) 0,
+                    position := (toM c0).position + data.length } := by
+    rw [storeNul_toM, hc1]
+  have hp2 : (storeNul (copyIn c0 (some data) data.length)).buffer_position = c0.buffer_position + data.length := by
+    rw [storeNul_pos, copyIn_pos, e2, e3]
+  have hL := loop_refines ((storeNul (copyIn c0 (some data) data.length)).buffer_position + 2).toNat _ true 0 0 hi2 (Int.le_refl 0)
+    (by rw [hp2]; omega) (by rw [hp2]; omega)
+  rw [input_nonempty_fits _ _ hd'' hov]
+  have hfu : ((storeNul (copyIn c0 (some data) data.length)).buffer_position + 2).toNat = (toM c0).position + data.length + 2 := by
+    rw [hp2]; show _ = c0.buffer_position.toNat + data.length + 2; omega
+  have h1 := hL.1
+  rw [hc2, Int.toNat_zero] at h1
+  refine ⟨?_, hL.2.ub, hL.2.oof, hL.2⟩
+  rw [← hfu, ← h1]
+  rfl
+
+theorem inv_chk {cc : CC} (hi : Inv cc) {b : Bool} (hb : b = true) : Inv (cc.chk b) := by
+  subst hb; exact hi
+
+attribute [local irreducible] Ctx.parse Parser.detectUnit inputLoop SCPI_Input_loop1 in
+/-- the text of the generated SCPI_Input on the path of a chunk that fits: whatever spelling the overrun test has and whether or
+not it comes with a CHECK (`b`), the test fails, the CHECK passes, and the statements after it are `fitsPath` -/
+theorem input_fits_eq (cc : CC) (hi : Inv cc) (data : Bytes) (hd : data ≠ [])
+    (hov : ¬ data.length + 1 > (toM cc).bufLen - (toM cc).position) :
+    ∃ b : Bool, b = true ∧ SCPI_Input detectM parseM pushM cc (some data) data.length = fitsPath (cc.chk b) (some data) data.length := by
+  obtain ⟨w1, w2, w3⟩ := hi.wf
+  simp only [toM_buf, toM_position, toM_bufLen] at w1 w2 hov
+  have hpos := hi.pos0
+  have hlm := hi.lenmax
+  have hl0 := hi.len0
+  have hd1 : data.length ≠ 0 := by intro h; exact hd (List.length_eq_zero_iff.mp h)
+  have hd' : ((data.length : Int) == 0) = false := by simp [hd1]
+  have hdl : (0 : Int) ≤ data.length := Int.natCast_nonneg _
+  simp only [SCPI_Input, hd', Bool.false_eq_true, if_false]
+  split
+  · next hno =>
+    exfalso
+    simp (disch := omega) only [wrapU64_of_range, wrapS32_of_range, decide_eq_true_eq] at hno
+    omega
+  · first
+    | exact ⟨true, rfl, rfl⟩          -- the test comes without a CHECK (`cc.chk true` is `cc`)
+    | refine ⟨_, ?_, rfl⟩
+      simp (disch := omega) only [wrapU64_of_range, wrapS32_of_range, decide_eq_true_eq]
+      omega
+
+/-- the chunk fits: it is copied behind the pending bytes, terminated, and the scan loop runs -/
+theorem input_fits_refines (cc : CC) (hi : Inv cc) (data : Bytes) (hd : data ≠ [])
+    (hov : ¬ data.length + 1 > (toM cc).bufLen - (toM cc).position) :
+    Ctx.input (toM cc) data = emit (toM (SCPI_Input detectM parseM pushM cc (some data) data.length).1)
+        (.input (SCPI_Input detectM parseM pushM cc (some data) data.length).2) ∧
+    (SCPI_Input detectM parseM pushM cc (some data) data.length).1.ub = false ∧
+    (SCPI_Input detectM parseM pushM cc (some data) data.length).1.outOfFuel = false ∧
+    Inv (SCPI_Input detectM parseM pushM cc (some data) data.length).1 := by
+  obtain ⟨b, hb, hX⟩ := input_fits_eq cc hi data hd hov
+  rw [hX]
+  have := fitsPath_refines _ (inv_chk hi hb) data hd (by rw [chk_toM]; exact hov)
+  rw [chk_toM] at this
+  exact this
+
+/-- generated SCPI_Input = hand model `Ctx.input` (the hand model logs the return value as an event), for every state `Inv`
+describes and every chunk whose length is a C `int` - the empty one (flush) and over-long ones included; no CHECK fails and
+the loop does not run out of fuel -/
+theorem input_refines_inv (cc : CC) (hi : Inv cc) (data : Bytes) (hlen : data.length ≤ 2147483647) :
+    Ctx.input (toM cc) data = emit (toM (SCPI_Input detectM parseM pushM cc (some data) data.length).1)
+        (.input (SCPI_Input detectM parseM pushM cc (some data) data.length).2) ∧
+    (SCPI_Input detectM parseM pushM cc (some data) data.length).1.ub = false ∧
+    (SCPI_Input detectM parseM pushM cc (some data) data.length).1.outOfFuel = false := by
+  by_cases hd : data = []
+  · subst hd; exact input_flush_refines cc hi
+  · by_cases hov : data.length + 1 > (toM cc).bufLen - (toM cc).position
+    · have := input_overrun_refines cc hi data hd hlen hov
+      exact ⟨this.1, this.2.1, this.2.2.1⟩
+    · have := input_fits_refines cc hi data hd hov
+      exact ⟨this.1, this.2.1, this.2.2.1⟩
+
+/-- the same from a well-formed hand-model context whose buffer length fits an `int`, whatever parser_state holds -/
+theorem input_refines (c : Ctx) (data : Bytes) (t ht : Int) (h : WF c) (hl : c.bufLen ≤ 2147483647)
+    (hlen : data.length ≤ 2147483647) :
+    Ctx.input c data = emit (toM (SCPI_Input detectM parseM pushM (toC c t ht) (some data) data.length).1)
+        (.input (SCPI_Input detectM parseM pushM (toC c t ht) (some data) data.length).2) ∧
+    (SCPI_Input detectM parseM pushM (toC c t ht) (some data) data.length).1.ub = false ∧
+    (SCPI_Input detectM parseM pushM (toC c t ht) (some data) data.length).1.outOfFuel = false := by
+  have := input_refines_inv (toC c t ht) (inv_toC c t ht h hl) data hlen
+  rw [toM_toC] at this
+  exact this
+
+/-! ### `Inv` after the call, sequences of calls -/
+
+theorem natCast_toNat_of_nonneg (x : Int) (h : 0 ≤ x) : ((x.toNat : Nat) : Int) = x := by omega
+
+attribute [local irreducible] Ctx.parse in
+theorem input_flush_inv (cc : CC) (hi : Inv cc) : Inv (SCPI_Input detectM parseM pushM cc (some []) 0).1 := by
+  have hr := input_flush_refines cc hi
+  have hw : WF (Ctx.input (toM cc) []) := Bounds.input_wf _ _ hi.wf
+  rw [hr.1] at hw
+  refine ⟨hr.2.1, hr.2.2, ?_, ?_, ?_, hw⟩
+  all_goals rw [input_flush_eq]
+  · exact Int.le_refl 0
+  · show 0 ≤ (parseM (storeNul cc) 0 _).1.buffer_length
+    rw [parseM_len]; exact Int.natCast_nonneg _
+  · show (parseM (storeNul cc) 0 _).1.buffer_length ≤ _
+    have hs := inv_storeNul hi
+    obtain ⟨w1, w2, w3⟩ := hi.wf
+    simp only [toM_buf, toM_position, toM_bufLen] at w1 w2
+    have hpos := hi.pos0
+    have hlm := hi.lenmax
+    have e1 : wrapS32 cc.buffer_position = cc.buffer_position := wrapS32_of_range _ (by omega) (by omega)
+    have := (Bounds.parse_frame (toM (storeNul cc)) 0 (wrapS32 (storeNul cc).buffer_position).toNat
+      (by rw [storeNul_pos, e1, toM_buf, storeNul_data, List.length_set]; omega) hs.wf.2.2).2.2.1
+    rw [parseM_len, Int.toNat_zero, this, toM_bufLen, storeNul_len]
+    have := hi.lenmax; have := hi.len0; omega
+
+theorem input_overrun_inv (cc : CC) (hi : Inv cc) (data : Bytes) (hd : data ≠ [])
+    (hlen : data.length ≤ 2147483647) (hov : data.length + 1 > (toM cc).bufLen - (toM cc).position) :
+    Inv (SCPI_Input detectM parseM pushM cc (some data) data.length).1 := by
+  have hr := input_overrun_refines cc hi data hd hlen hov
+  have hw : WF (Ctx.input (toM cc) data) := Bounds.input_wf _ _ hi.wf
+  rw [hr.1] at hw
+  obtain ⟨w1, w2, w3⟩ := hi.wf
+  simp only [toM_buf, toM_position, toM_bufLen] at w1 w2 hov
+  have hpos := hi.pos0
+  have hlm := hi.lenmax
+  have hl0 := hi.len0
+  have hd1 : data.length ≠ 0 := by intro h; exact hd (List.length_eq_zero_iff.mp h)
+  have hd' : ((data.length : Int) == 0) = false := by simp [hd1]
+  have hdl : (0 : Int) ≤ data.length := Int.natCast_nonneg _
+  refine ⟨hr.2.1, hr.2.2.1, ?_, ?_, ?_, hw⟩
+  all_goals
+    simp only [SCPI_Input, hd', Bool.false_eq_true, if_false]
+    simp (disch := omega) only [wrapU64_of_range, wrapS32_of_range, chk_data, chk_pos, chk_len]
+    split
+    · simp only [pushM, fromM, Bounds.pushError_position, Bounds.pushError_bufLen, toM_bufLen, toM_position]
+      omega
+    · next hno =>
+      exfalso
+      simp only [decide_eq_true_eq] at hno
+      omega
+
+/-- `Inv` is kept by every call -/
+theorem input_inv (cc : CC) (hi : Inv cc) (data : Bytes) (hlen : data.length ≤ 2147483647) :
+    Inv (SCPI_Input detectM parseM pushM cc (some data) data.length).1 := by
+  by_cases hd : data = []
+  · subst hd; exact input_flush_inv cc hi
+  · by_cases hov : data.length + 1 > (toM cc).bufLen - (toM cc).position
+    · exact input_overrun_inv cc hi data hd hlen hov
+    · exact (input_fits_refines cc hi data hd hov).2.2.2
+
+/-- one call of the generated SCPI_Input as the hand model counts it: the caller appends the return value to the ghost log -/
+def cstep (cc : CC) (d : Bytes) : CC :=
+  let R := SCPI_Input detectM parseM pushM cc (some d) d.length
+  fromM (emit (toM R.1) (.input R.2)) R.1
+
+theorem cstep_refines (cc : CC) (hi : Inv cc) (d : Bytes) (hlen : d.length ≤ 2147483647) :
+    toM (cstep cc d) = Ctx.input (toM cc) d ∧ Inv (cstep cc d) := by
+  have hr := input_refines_inv cc hi d hlen
+  have hI := input_inv cc hi d hlen
+  have ht : toM (cstep cc d) = Ctx.input (toM cc) d := by rw [hr.1]; exact toM_fromM _ _
+  refine ⟨ht, hI.ub, hI.oof, Int.natCast_nonneg _, Int.natCast_nonneg _, ?_, ?_⟩
+  · show (((toM (SCPI_Input detectM parseM pushM cc (some d) d.length).1).bufLen : Nat) : Int) ≤ _
+    have := hI.lenmax; have := hI.len0
+    rw [toM_bufLen]; omega
+  · rw [ht]; exact Bounds.input_wf _ _ hi.wf
+
+/-- a sequence of calls: the generated function, called chunk by chunk, is the hand model's fold -/
+theorem csteps_refine (chunks : List Bytes) : ∀ (cc : CC), Inv cc → (∀ d ∈ chunks, d.length ≤ 2147483647) →
+    toM (chunks.foldl cstep cc) = chunks.foldl Ctx.input (toM cc) ∧ Inv (chunks.foldl cstep cc) := by
+  induction chunks with
+  | nil => intro cc hi _; exact ⟨rfl, hi⟩
+  | cons d ds ih =>
+    intro cc hi hl
+    have h1 := cstep_refines cc hi d (hl d (List.mem_cons_self))
+    have h2 := ih (cstep cc d) h1.2 (fun x hx => hl x (List.mem_cons_of_mem _ hx))
+    rw [h1.1] at h2
+    exact h2
+
 end ScpiVerif.Lemmas.InputC
